@@ -136,8 +136,17 @@ def request_nontrivial(keys):
 
 @st.composite
 def strain_fields(draw, ntv):
-    cls = draw(st.sampled_from(["generic", "two-equal", "all-equal"]))
+    cls = draw(st.sampled_from(["generic", "two-equal", "all-equal", "near-equal"]))
     rows = []
+    if cls == "near-equal":
+        # pseudo-cubic / pseudo-tetragonal cells: axes that differ by 1e-4..1e-3 relative, i.e. 10-100 times the
+        # scheduler's own merge tolerance (numpy.allclose, rtol 1e-5): still different tasks
+        delta = draw(st.sampled_from([1e-4, 2e-4, 5e-4]))
+        for _ in range(ntv):
+            a = draw(st.integers(4, 24)) / 8.0
+            mult = draw(st.permutations([0, 1, 2]))
+            rows.append([a * (1 + delta * m) for m in mult])
+        return cls, rows
     for _ in range(ntv):
         a = draw(st.integers(1, 24))
         if cls == "all-equal":
@@ -171,15 +180,20 @@ def oracle(ctx, full):
     iso, adi, tl = run_tasklist(ctx, duck, strain, keys, case)           # (a) inside
     check_order(tl, case)                                                # (c)
     scale = tensor_scale(ctx, full, strain, case)
+    # The scheduler merges tasks whose strain fractions agree to numpy.allclose's 1e-5 (by design).  Rational-grid
+    # strains are either identical or far apart (tolerance 1e-9).  In the near-equal class (axes differing by 1e-4..1e-3)
+    # depth-1 rotations produce fractions closer than that tolerance, so results may legitimately move by about
+    # |dc/de| * 1e-5 e: tolerance 5e-5 of the tensor scale there.
+    rel = 5e-5 if full.get("strain_class") == "near-equal" else 1e-9
     # (b) alone
     for k in keys:
         i1, a1, _ = run_tasklist(ctx, DuckCalculator(full), strain, [k], case)
-        compare(iso, i1, [k], [k], scale, "C04/request-dependence", "isothermal %s requested with %r vs alone" % (k, keys), case)
-        compare(adi, a1, [k], [k], scale, "C04/request-dependence", "adiabatic %s requested with %r vs alone" % (k, keys), case)
+        compare(iso, i1, [k], [k], scale, "C04/request-dependence", "isothermal %s requested with %r vs alone" % (k, keys), case, rel=rel)
+        compare(adi, a1, [k], [k], scale, "C04/request-dependence", "adiabatic %s requested with %r vs alone" % (k, keys), case, rel=rel)
     # reversed order
     i2, a2, tl2 = run_tasklist(ctx, DuckCalculator(full), strain, list(reversed(keys)), case)
     check_order(tl2, case)
-    compare(iso, i2, keys, keys, scale, "C04/order-dependence", "request order reversed", case)
+    compare(iso, i2, keys, keys, scale, "C04/order-dependence", "request order reversed", case, rel=rel)
     # (e) axis relabelling
     perm = full["perm"]
     if perm != [0, 1, 2]:
@@ -187,8 +201,8 @@ def oracle(ctx, full):
         keys_old = [permute_key(k, perm) for k in keys]
         i3, a3, _ = run_tasklist(ctx, DuckCalculator(full), strain_p, keys, case)
         i4, a4, _ = run_tasklist(ctx, DuckCalculator(full), strain, keys_old, case)
-        compare(i3, i4, keys, keys_old, scale, "C04/axis-relabelling", "axes relabelled by %r" % (perm,), case)
-        compare(a3, a4, keys, keys_old, scale, "C04/axis-relabelling", "axes relabelled by %r (adiabatic)" % (perm,), case)
+        compare(i3, i4, keys, keys_old, scale, "C04/axis-relabelling", "axes relabelled by %r" % (perm,), case, rel=rel)
+        compare(a3, a4, keys, keys_old, scale, "C04/axis-relabelling", "axes relabelled by %r (adiabatic)" % (perm,), case, rel=rel)
     return iso
 
 
